@@ -75,6 +75,19 @@ pub(crate) fn write_bundle_v1(
     Ok(artifact_id)
 }
 
+/// Whether `artifact_id` names a blob in the workspace's artifact store (ids are 64 lower-case
+/// hex characters; anything else cannot be an artifact and must not be joined to a path).
+pub(crate) fn artifact_exists(workspace_root: &Path, artifact_id: &str) -> bool {
+    let well_formed = artifact_id.len() == 64
+        && artifact_id
+            .bytes()
+            .all(|b| matches!(b, b'0'..=b'9' | b'a'..=b'f'));
+    well_formed
+        && artifacts_blobs_dir(workspace_root)
+            .join(artifact_id)
+            .is_file()
+}
+
 fn artifacts_blobs_dir(workspace_root: &Path) -> PathBuf {
     workspace_root.join(".rip").join("artifacts").join("blobs")
 }
